@@ -43,6 +43,34 @@ func (s *Seq) smallOpen() {
 	s.smallTimeoutMs = s.Cfg.TimeoutMs
 }
 
+// smallExtras fills the fields that exist for their kinds: a named string type and
+// a pointer to a string with case constraints, an embedded pointer two levels deep.
+func (s *Seq) smallExtras(o *shapes.Small, variant int) {
+	cs := []string{"", "aB", "AB", "ab", "é", "Zz", "x", "X"}
+	o.C = shapes.Code(cs[variant%len(cs)])
+	if variant%3 != 0 {
+		p := cs[(variant+3)%len(cs)]
+		o.PS = &p
+	}
+	if variant%2 == 0 {
+		o.Mid = &shapes.Mid{Deep: shapes.Deep{D: variant % 3}, MN: "m"}
+	}
+}
+
+// smallExpect is what the collection stores for o: V and PS in lower case, C in upper case.
+func smallExpect(o *shapes.Small) *shapes.Small {
+	e := &shapes.Small{K: o.K, V: model.Case(o.V, false), W: o.W, C: shapes.Code(model.Case(string(o.C), true))}
+	if o.PS != nil {
+		p := model.Case(*o.PS, false)
+		e.PS = &p
+	}
+	if o.Mid != nil {
+		m := *o.Mid
+		e.Mid = &m
+	}
+	return e
+}
+
 func smallJSON(x *shapes.Small) string { b, _ := json.Marshal(x); return string(b) }
 
 func (m *smallModel) keys() []int {
@@ -68,20 +96,23 @@ func (s *Seq) opSmall() {
 		k := m.next
 		m.next++
 		o := &shapes.Small{K: k, V: vals[r.Intn(len(vals))], W: fmt.Sprintf("w%d", k)}
+		s.smallExtras(o, r.Intn(8))
+		exp := smallExpect(o)
 		if err := s.db.InsertOrUpdate(o); err != nil {
 			s.fail("read", "small-insert-failed", "second collection: insert K=%d failed: %v", k, err)
 		}
-		exp := &shapes.Small{K: k, V: model.Case(o.V, false), W: o.W}
 		m.objs[k] = exp
 		m.uuid[k] = o.UUID()
 	case x < 5:
 		k := keys[r.Intn(len(keys))]
 		o := &shapes.Small{K: k, V: vals[r.Intn(len(vals))], W: fmt.Sprintf("w%d-%d", k, s.step)}
+		s.smallExtras(o, r.Intn(8))
+		exp := smallExpect(o)
 		o.Initialize(m.uuid[k])
 		if err := s.db.InsertOrUpdate(o); err != nil {
 			s.fail("read", "small-update-failed", "second collection: update K=%d failed: %v", k, err)
 		}
-		m.objs[k] = &shapes.Small{K: k, V: model.Case(o.V, false), W: o.W}
+		m.objs[k] = exp
 	case x < 6:
 		// a duplicate K must be refused
 		k := keys[r.Intn(len(keys))]
@@ -157,6 +188,41 @@ func (s *Seq) smallSweep0(tag, ctx string) {
 	}
 	if len(got) != want {
 		s.fail(tag, "small-search-wrong", "%s: second collection: search V=%q returned %d objects, expected %d", ctx, probe, len(got), want)
+	}
+	// the named string type (upper), the pointer to a string (lower) and the field promoted
+	// through an embedded pointer and an embedded structure, by its short name
+	cprobe := []string{"ab", "AB", "Ab", "é", "zz", "x"}[s.prng.Intn(6)]
+	nPS, nD := 0, 0 // (a field of a named string type cannot be searched: "unknown key type", a documented limitation; what it stores is compared)
+	dprobe := s.prng.Intn(3)
+	for _, k := range m.keys() {
+		o := m.objs[k]
+		ps := ""
+		if o.PS != nil {
+			ps = *o.PS
+		}
+		if ps == model.Case(cprobe, false) {
+			nPS++
+		}
+		d := 0
+		if o.Mid != nil {
+			d = o.Mid.D
+		}
+		if d == dprobe {
+			nD++
+		}
+	}
+	for _, pr := range []struct {
+		field string
+		v     interface{}
+		n     int
+	}{{"PS", cprobe, nPS}, {"D", dprobe, nD}, {"Mid.Deep.D", dprobe, nD}} {
+		sr := s.db.Search(small0(), pr.field, "=", pr.v)
+		if sr.Err() != nil {
+			s.fail(tag, "small-search-error", "%s: second collection: search %s = %v failed: %v", ctx, pr.field, pr.v, sr.Err())
+		}
+		if sr.Len() != pr.n {
+			s.fail(tag, "small-search-wrong", "%s: second collection: search %s = %v denotes %d objects, expected %d", ctx, pr.field, pr.v, sr.Len(), pr.n)
+		}
 	}
 }
 
